@@ -162,7 +162,8 @@ func (g *grpcHandler) NewConn(
 	header := responseWriter.Header()
 	header[headerContentType] = []string{request.Header.Get(headerContentType)}
 	header[grpcHeaderAcceptCompression] = []string{g.CompressionPools.CommaSeparatedNames()}
-	if responseCompression != compressionIdentity {
+	// (Negotiation leaves it empty when it fails: no header then.)
+	if responseCompression != "" && responseCompression != compressionIdentity {
 		header[grpcHeaderCompression] = []string{responseCompression}
 	}
 
